@@ -5,22 +5,46 @@ use serde_json::{json, Value};
 /// scale: more bytes than an internal buffer (8 KiB, 64 KiB), lines longer than one, with the
 /// marker early, late, or exactly across a buffer boundary
 pub fn big_data(rng: &mut Rng) -> Vec<u8> {
-    let total = threshold(rng, 140000).max(4097);
     let mut out: Vec<u8> = vec![];
     let fill = |out: &mut Vec<u8>, n: usize, rng: &mut Rng| { for _ in 0..n { out.push(*rng.pick(b"abcdefgh 0123456789+-")); } };
-    match rng.below(4) {
-        // one very long line with the marker at a chosen offset
+    // the boundary of an internal buffer the input is built around (no larger than needed: TLC
+    // validates every byte)
+    let bound = *rng.pick(&[4096usize, 8192, 8192, 8192, 16384, 32768, 65536, 65536, 65536, 131072]);
+    match rng.below(5) {
+        // one very long line with the marker lying across / next to the boundary
         0 => {
-            let at = *rng.pick(&[0usize, 5, 4090, 8186, 8190, 8192, 65530, 65536, 70000]);
-            let at = at.min(total.saturating_sub(8));
+            let at = (bound as i64 + *rng.pick(&[-9i64, -8, -7, -4, -1, 0, 1, -4000])) as usize;
             fill(&mut out, at, rng);
             out.extend_from_slice(b"$NetBSD$");
-            fill(&mut out, total - at - 8, rng);
+            let n = rng.range(0, 120);
+            fill(&mut out, n, rng);
             if rng.chance(1, 2) { out.push(b'\n'); }
             out.extend_from_slice(b"after\n");
         }
-        // many ordinary lines, some with the marker
+        // ordinary lines up to just before the boundary, then a marker line that starts before
+        // it and ends after it (the marker itself before, across or behind the boundary)
         1 => {
+            let lead = *rng.pick(&[0usize, 2, 30]);           // text in front of the marker on its line
+            let start = bound - *rng.pick(&[1usize, 3, 7, 8, 12, 40]).min(&bound);
+            while out.len() + 100 < start.saturating_sub(lead) {
+                if rng.chance(1, 30) { out.extend_from_slice(b"+ $NetBSD: x $"); }
+                let n = rng.range(0, 90);
+                fill(&mut out, n, rng);
+                out.push(b'\n');
+            }
+            while out.len() + 1 < start.saturating_sub(lead) { out.push(b'p'); }
+            out.push(b'\n');
+            fill(&mut out, lead, rng);
+            out.extend_from_slice(b"$NetBSD: patch-aa,v 1.3 2024/01/01 00:00:00 joe Exp $");
+            let n = rng.range(0, 60);
+            fill(&mut out, n, rng);
+            out.push(b'\n');
+            for _ in 0..rng.range(0, 3) { let n = rng.range(0, 60); fill(&mut out, n, rng); out.push(b'\n'); }
+            if rng.chance(1, 2) { out.extend_from_slice(b"unterminated"); }
+        }
+        // many ordinary lines, some with the marker
+        2 => {
+            let total = threshold(rng, 70000).max(4097);
             while out.len() < total {
                 if rng.chance(1, 9) { out.extend_from_slice(b"+ $NetBSD: x $"); }
                 let n = rng.range(0, 90);
@@ -29,12 +53,13 @@ pub fn big_data(rng: &mut Rng) -> Vec<u8> {
             }
         }
         // a long line without the marker, then marker lines
-        2 => {
+        3 => {
+            let total = threshold(rng, 70000).max(4097);
             fill(&mut out, total, rng);
             out.extend_from_slice(b"\n$NetBSD$\nlast");
         }
         // binary
-        _ => { for _ in 0..total { out.push(rng.below(256) as u8); } }
+        _ => { let total = threshold(rng, 70000).max(4097); for _ in 0..total { out.push(rng.below(256) as u8); } }
     }
     out
 }
